@@ -304,6 +304,41 @@ def orbit_invariant(b):
     # the stellar distance of the tidal host is its semi-major axis about the star (public wrapper; also reached through world.stellar_distance = d)
     check("set_stellar_distance[host;stellar]", "set_stellar_distance", "distance", False, "host", True, stellar_kw=False)
     check("set_stellar_distance[instance;stellar]", "set_stellar_distance", "distance", False, "instance", True, stellar_kw=False)
+    # the batch update forwards, for every listed world, the element with that world's position in each list under its own keyword (set_state is a
+    # recording stub here; its own contract is the one proved above), with the stellar flag
+    c, node = cls.lookup("methods", "set_states")
+    if node is not None:
+        mfn = MethodFn(c, node)
+        b.functions[mfn.key] = mfn.info()
+        kinds = (("eccentricities", "eccentricity"), ("semi_major_axes", "semi_major_axis"), ("orbital_frequencies", "orbital_frequency"), ("orbital_periods", "orbital_period"))
+        for given in (("semi_major_axes",), ("orbital_frequencies", "eccentricities"), ("orbital_periods",), ("eccentricities", "semi_major_axes")):
+            for stellar in (False, True):
+                rec = []
+                o, old, worlds, star = mk_orbit(False)
+                o._attrs["set_state"] = lambda ex, node_, *a, **k: rec.append((a, dict(k)))
+                sigs = [worlds[2], worlds[1]]
+                env = dict(self=o, world_signatures=sigs, set_stellar_orbit=stellar)
+                vals = {lst: [R(f"{lst}_{j}") for j in range(2)] for lst in given}
+                env.update(vals)
+                tag = f"{mfn.key}::set_states[{'+'.join(given)}{';stellar' if stellar else ''}]"
+                ex = Exec(mfn, pre=pre, contracts=contracts, globals_env=genv, opts=dict(max_recursion=3))
+                try:
+                    paths = ex.run(env)
+                except SymExError as e:
+                    b.subset_exits.append(f"{mfn.key} ({given}): {e}")
+                    break
+                b.absorb_exec(ex)
+                ok = len(paths) == 1 and paths[0].outcome == "return" and len(rec) == 2
+                detail = str(rec)[:300]
+                if ok:
+                    for j, (a_, k_) in enumerate(rec):
+                        sig_ = a_[0] if a_ else k_.get("world_signature")
+                        ok = ok and sig_ is sigs[j] and bool(k_.get("set_stellar_orbit", False)) == stellar
+                        for lst, kw in kinds:
+                            want = vals[lst][j] if lst in vals else None
+                            got = k_.get(kw)
+                            ok = ok and ((want is None and got is None) or (want is not None and got is not None and got == want))
+                ground(b, tag + "::forwards_own_elements", mfn.key, "ensures set_state is called once per listed world, in order, with that world's own element of every given list under its own keyword, and the stellar flag", ok, detail=detail)
     # what the orbit REPORTS: every getter returns the stored value of the slot that the setters write for the same signature (index, instance, name,
     # host instance = the host's tide raiser; for_stellar_orbit = the host's slot 0), and reading changes nothing
     def check_getter(method, field, addressing, stellar, stellar_kw=True):
